@@ -9,6 +9,8 @@ C10.c K9  collapse_statevector_to_desired_measurement: reshape extents are mirro
           norm used for renormalisation; perform_measurement picks outcome 0 with probability p0
 C10.d K8  the duplicated control loop (generate_applied_gates vs the CMEASURE branch of CirqSimulator.simulate_circuit) has the
           same statement skeleton once simulation statements are removed
+C10.a2 K7 the record splitter is chosen by the presence of CMEASURE (test folded on a grid of gate counts); K10 the cirq all-shots path assembles
+          shot strings in the numeric order of the record keys (folded on a 12-column result)
 C10.e     splitting joint frequencies: complementary index sets; the last-n split accumulates instead of overwriting
 """
 from __future__ import annotations
@@ -42,6 +44,7 @@ def run(idx: Index, rep: Report, tier: str):
     check_control_loop_clone(idx, rep)
     check_nested_control_replay(idx, rep)
     check_frequency_split(idx, rep)
+    check_cirq_record_assembly(idx, rep)
 
 
 def check_simulate_forwarding(idx: Index, rep: Report):
@@ -80,6 +83,88 @@ def check_simulate_forwarding(idx: Index, rep: Report):
     rep.decide(ok, rule, f, sp_calls[0] if sp_calls else f.node, text="split_frequency_dict(all_frequencies, range(n_meas), desired_measurement=desired_meas_result)",
                what="the leading n_meas characters are the mid-circuit outcomes; the final distribution is post-selected on the requested string",
                reason="joint frequencies are split with other indices / without the requested outcome")
+    check_record_split_dispatch(idx, rep)
+
+
+def check_record_split_dispatch(idx: Index, rep: Report):
+    """which splitter post-processes the saved record: the fixed-length split on the leading n_meas characters is right exactly when the circuit has
+    no CMEASURE (a classically controlled measurement makes the record length vary from shot to shot, and the engine then returns record + final
+    bits, or the final bits alone); decided from the *value* of the dispatching test on a grid of gate counts"""
+    from ..consteval import Folder, Raised, Undecidable
+    rule = "K7.record-split"
+    f = idx.function(f"{BACKEND}::Backend.simulate")
+
+    def calls_in(stmts, name):
+        return any(isinstance(n, ast.Call) and norm(n.func) == name for s_ in stmts for n in ast.walk(s_))
+    disp = [n for n in own_nodes(f.node) if isinstance(n, ast.If) and n.orelse and not (calls_in(n.body, "split_frequency_dict") and calls_in(n.body, "split_frequency_dict_for_last_n_digits")) and
+            {calls_in(n.body, "split_frequency_dict"), calls_in(n.orelse, "split_frequency_dict")} == {True, False} and
+            (calls_in(n.body, "split_frequency_dict_for_last_n_digits") or calls_in(n.orelse, "split_frequency_dict_for_last_n_digits"))]
+    if len(disp) != 1:
+        raise AnalysisError("Backend.simulate: the if/else choosing between split_frequency_dict and split_frequency_dict_for_last_n_digits was not found")
+    d = disp[0]
+    fixed_in_body = calls_in(d.body, "split_frequency_dict")
+    bad = []
+    for n_meas, n_cmeas in itertools.product(range(3), range(3)):
+        fo = Folder(env={"n_meas": n_meas, "n_cmeas": n_cmeas, "desired_meas_result": None, "save_mid_circuit_meas": True})
+        try:
+            t = bool(fo.truth(fo.expr(d.test), d.test))
+        except (Undecidable, Raised) as e:
+            raise AnalysisError(f"Backend.simulate: dispatch test `{norm(d.test)}` not foldable: {e}")
+        fixed = t if fixed_in_body else not t
+        if (n_meas, n_cmeas) != (0, 0) and fixed != (n_cmeas == 0):        # with nothing measured the record is empty and both splitters agree
+            bad.append(f"{n_meas} MEASURE + {n_cmeas} CMEASURE -> {'fixed-length split on the first n_meas characters' if fixed else 'split on the last n_qubits characters'}")
+    rep.decide(not bad, rule, f, d, text=f"record split dispatch `{norm(d.test)}` on 8 (MEASURE, CMEASURE) count pairs",
+               what="the saved record is split at a fixed n_meas characters exactly when the circuit has no classically controlled measurement, and on the last "
+                    "n_qubits characters otherwise", reason="; ".join(bad[:3]))
+
+
+def check_cirq_record_assembly(idx: Index, rep: Report):
+    """the all-shots-at-once path of the cirq target: measurement records come back as one column per key (keys are the decimal strings of the record
+    position: saved mid-circuit measurements first, then qubit i under n_meas + i); the statements that assemble the per-shot strings are folded on a
+    12-key result with pairwise different columns, so that any other column order - e.g. the lexicographic order of the keys, which differs from the
+    numeric one from ten keys on - changes at least one string"""
+    import numpy as np
+    from ..consteval import Raised, Rec, Undecidable
+    from ..rules import circuitsem as cs
+    rule = "K10.record-order"
+    cls = idx.cls(f"{TCIRQ}::CirqSimulator")
+    f = cls.methods["simulate_circuit"]
+
+    def is_run(s_):
+        return isinstance(s_, ast.Assign) and isinstance(s_.value, ast.Call) and isinstance(s_.value.func, ast.Attribute) and s_.value.func.attr == "run"
+    brs = [n for n in ast.walk(f.node) if isinstance(n, ast.If) and any(is_run(s_) for s_ in n.body)]
+    if len(brs) != 1:
+        raise AnalysisError("CirqSimulator.simulate_circuit: the branch that runs all shots at once (`... = cirq_simulator.run(...)`) was not found")
+    b = brs[0]
+    i0 = [i for i, s_ in enumerate(b.body) if is_run(s_)][0]
+    res_name = norm(b.body[i0].targets[0])
+    keys = [n for s_ in b.body[:i0] for n in ast.walk(s_) if isinstance(n, ast.keyword) and n.arg == "key"]
+    if not keys or norm(keys[0].value) not in ("str(i + n_meas)", "str(n_meas + i)"):
+        raise AnalysisError(f"CirqSimulator.simulate_circuit: final measurements are expected under key str(i + n_meas), found {[norm(k.value) for k in keys]}")
+    for n_meas, width in ((2, 10), (0, 11), (11, 1), (1, 2)):
+        ncol = n_meas + width
+        shots = 4
+        rows = [[((k + 1) >> j) & 1 for k in range(ncol)] for j in range(shots)]           # column k spells k + 1 in binary: pairwise different columns
+        meas = {str(k): np.array([[rows[j][k]] for j in range(shots)], dtype=np.int8) for k in range(ncol)}
+        fo = cs.make_folder(idx, TCIRQ)
+        me = Rec("CirqSimulator", {"n_shots": shots})
+        fo.env.update({"self": me, "source_circuit": Rec("Circuit", {"width": width}), "n_meas": n_meas, res_name: Rec("Result", {"measurements": meas})})
+        try:
+            fo.block(b.body[i0 + 1:])
+        except (Raised, Undecidable) as e:
+            raise AnalysisError(f"CirqSimulator.simulate_circuit: record assembly not foldable ({type(e).__name__}: {e})")
+        got = me.fields.get("all_frequencies")
+        want = {}
+        for r in rows:
+            k = "".join(map(str, r))
+            want[k] = want.get(k, 0) + sp.Rational(1, shots)
+        try:
+            ok = isinstance(got, dict) and set(got) == set(want) and all(abs(float(got[k]) - float(want[k])) < 1e-12 for k in want)
+        except TypeError:
+            ok = False
+        rep.decide(ok, rule, f, b.body[i0], text=f"{n_meas} saved measurements + {width} qubits, {shots} shots: per-shot strings from the {ncol} record columns",
+                   what="character p of a shot string is the record stored under key str(p): saved mid-circuit outcomes first, then qubit i at position n_meas + i",
+                   reason=f"assembled strings {sorted(got) if isinstance(got, dict) else got!r}, expected {sorted(want)}")
 
 
 def _innermost_loop(f: FunctionInfo, node: ast.AST):
